@@ -68,3 +68,8 @@ pub mod set64;
 pub use crate::set64::{Fits64, Set64};
 
 mod copyset;
+
+/// Scripted random draws for external verification tooling
+/// (`--cfg droundy_tinyset_verif` only).
+#[cfg(droundy_tinyset_verif)]
+pub use crate::rand::verif as verif_rand;
